@@ -1198,3 +1198,57 @@ def check_result_fields_aligned(ctx, rule="R-result-fields-aligned"):
             n_ok += 1
             ctx.holds(rule, f"{key}[{path[:80]}]", f"all {len(RESULT_FIELDS)} per-bin fields are taken at the same index ({ref!r})", where)
     ctx.need("paths of SpectrumResult.__init__ with aligned fields examined", n_ok + sum(1 for o in ctx.obs if o["rule"] == rule and o["status"] != HOLDS), 1)
+
+
+# ---------------------------------------------------------------------------- the one-call convenience functions forward their arguments unchanged
+def check_wrappers(ctx, rule="R12-convenience-functions-forward"):
+    """lpsd / compute_spectrum / compute_single_bin (module level) build SpectrumAnalyzer(data, fs, **kwargs) from their own arguments, call compute()
+    resp. compute_single_bin(freq=freq, fres=fres, L=L) on it and return that result."""
+    repo = ctx.repo
+    rel = "speckit/analysis.py"
+    for fname, meth, extra in (("compute_spectrum", "compute", ()), ("lpsd", "compute", ()), ("compute_single_bin", "compute_single_bin", ("freq", "fres", "L"))):
+        key = f"{rel}::{fname}"
+        if not repo.has(key): continue
+        fn = repo.get(key); where = repo.where(key, fn); ctx.analysed(key)
+        I = Interp(repo)
+        made = []; called = []
+
+        def construct(I_, f, args, kwargs, st, node, made=made, called=called):
+            if f.key == AN:
+                o = Obj("analyzer-instance"); made.append((list(args), dict(kwargs)))
+
+                def hook(kind, o_, name, v, st_):
+                    if kind == "call":
+                        m = Obj("result-of:" + name); called.append((name, list(v[0]), dict(v[1]), m)); return m
+                    return NotImplemented
+                o.hook = hook
+                return o
+            return NotImplemented
+        I.hooks["construct"] = construct
+        data = ArrParam("data"); kw = DictVal({"olap": X.var("kw.olap")}, open_=True)
+        args = [data, X.var("fs")] + ([X.var("freq")] if extra else [])
+        kws = {"**": kw, "olap": X.var("kw.olap")}
+        if extra: kws.update({"fres": X.var("fres"), "L": X.var("Lreq")})
+        try:
+            r = I.call_func(Func(key, fn), args, kws, St(), None)
+        except Unknown as ex:
+            ctx.unknown(rule, key, str(ex), where); continue
+        # lpsd delegates to compute_spectrum: follow one level
+        bad = None
+        if len(made) != 1: bad = f"{len(made)} analyzers constructed"
+        else:
+            a, k = made[0]
+            d_ = a[0] if a else k.get("data"); f_ = a[1] if len(a) > 1 else k.get("fs")
+            if d_ is not data: bad = f"the analyzer is built from {d_!r}, not from the data argument"
+            elif not (isinstance(f_, X) and f_.eq(X.var("fs"))): bad = f"the analyzer is built with fs = {f_!r}, not the fs argument"
+            elif not (isinstance(k.get("olap"), X) and k["olap"].eq(X.var("kw.olap"))): bad = "the keyword options are not forwarded to the analyzer"
+        if bad is None:
+            if len(called) != 1 or called[0][0] != meth: bad = f"calls {[c[0] for c in called]} on the analyzer, expected {meth}()"
+            else:
+                nm, a, k, m = called[0]
+                for i_, ex_ in enumerate(extra):
+                    want = X.var({"freq": "freq", "fres": "fres", "L": "Lreq"}[ex_])
+                    got = k.get(ex_, a[i_] if len(a) > i_ else None)
+                    if not (isinstance(got, X) and got.eq(want)): bad = f"{meth}() receives {ex_} = {got!r}, not the caller's {ex_}"; break
+                if bad is None and r is not m: bad = "the value returned is not the result of that call"
+        (ctx.violated if bad else ctx.holds)(rule, key, bad or f"SpectrumAnalyzer(data, fs, **kwargs).{meth}(...) with the caller's own arguments", where)
